@@ -43,6 +43,12 @@ let parse_op toks = match toks with
   | ["rematit"; x; i] -> ORemVia (VIter, n x, n i)
   | ["rempop"; x; "f"] -> ORemVia (VFront, n x, nat_of_int 0)
   | ["rempop"; x; "b"] -> ORemVia (VBack, n x, nat_of_int 0)
+  | ["newcap"; x; k; c] -> ONewCap (n x, kind_of_string k, n c)
+  | ["find"; x; a] -> OFind (n x, parse_arg a)
+  | "emplace" :: x :: args -> OEmplace (n x, List.map parse_arg args)
+  | "appvals" :: x :: zs -> OAppendVals (n x, List.map (fun z -> z_of_int (int_of_string z)) zs)
+  | ["inshint"; x; p; ka; va] -> OInsHint (n x, parse_pos p, parse_arg ka, parse_arg va)
+  | ["sort"; x] -> OSort (n x)
   | _ -> failwith ("bad op: " ^ String.concat " " toks)
 
 let oz_str o = match o with Some z -> string_of_int (int_of_z z) | None -> "_"
@@ -56,6 +62,8 @@ let ev_str e = match e with
   | EDef i -> Printf.sprintf "D%d" (int_of_nat i)
   | EVal (i, v) -> Printf.sprintf "V%d=%d" (int_of_nat i) (int_of_z v)
   | ECopy (i, s) -> Printf.sprintf "C%d<%d" (int_of_nat i) (int_of_nat s)
+  | EMake (i, v, srcs) -> Printf.sprintf "M%d=%d%s" (int_of_nat i) (int_of_z v)
+                            (String.concat "" (List.map (fun s -> Printf.sprintf "<%d" (int_of_nat s)) srcs))
   | EAssign (d, s) -> Printf.sprintf "A%d<%d" (int_of_nat d) (int_of_nat s)
   | EDestroy i -> Printf.sprintf "X%d" (int_of_nat i)
   | EAlloc b -> Printf.sprintf "+%d" (int_of_nat b)
@@ -86,6 +94,12 @@ let model_line res (before : state) (after : state) =
     (sstate_str (abs after)) (List.length after.sw.heap)
     (new_events before.sw after.sw) (List.length after.sw.blks) (caps_str after)
 
+(* find: the result token carries the index of the element found *)
+let found_str o = match o with Some i -> string_of_int (int_of_nat i) | None -> "-"
+let res_token did o (found : unit -> nat option) = match o with
+  | OFind (_, _) when did -> "ok@" ^ found_str (found ())
+  | _ -> if did then "ok" else "skip"
+
 let () =
   let mode = Sys.argv.(1) and file = Sys.argv.(2) in
   if mode = "model" then
@@ -94,8 +108,11 @@ let () =
          match ms with
          | Dead -> Dead
          | Running st ->
-             (match step st (parse_op toks) with
-              | Ok (did, st') -> emit (model_line (if did then "ok" else "skip") st st'); Running st'
+             let o = parse_op toks in
+             (match step st o with
+              | Ok (did, st') ->
+                  let tok = res_token did o (fun () -> match o with OFind (x, ka) -> model_found st x ka | _ -> None) in
+                  emit (model_line tok st st'); Running st'
               | Err e -> emit (err_str e); Dead))
       (fun ms ->
          match ms with
@@ -110,8 +127,10 @@ let () =
   else
     run_cases file (fun _ -> sinit (nat_of_int nvars))
       (fun s _ toks ->
-         let (did, s') = spec_step s (parse_op toks) in
-         emit (Printf.sprintf "%s | %s ; live=%d bad=0" (if did then "ok" else "skip")
+         let o = parse_op toks in
+         let (did, s') = spec_step s o in
+         let tok = res_token did o (fun () -> match o with OFind (x, ka) -> spec_found s x ka | _ -> None) in
+         emit (Printf.sprintf "%s | %s ; live=%d bad=0" tok
                  (sstate_str s') (int_of_nat (slive s')));
          s')
       (fun _ -> emit "end | live=0 bad=0 nb=0")
